@@ -174,7 +174,7 @@ fn all_cells() -> Vec<Cell> {
 // ------------------------------------------------------------------ attribute vectors
 
 const N_SHAPES: u8 = 12;
-const N_POLICIES: u8 = 7;
+const N_POLICIES: u8 = 16;
 
 #[derive(Clone, Debug, PartialEq, Eq, Hash)]
 struct Spec {
@@ -203,7 +203,10 @@ struct Spec {
     /// 0 none, 1 flags 0x80, 2 flags 0x90
     opq_nt: u8,
     llgr: bool,
-    /// 0 none, 1 nh address, 2 nh self, 3 nh peer-address, 4 nh unchanged, 5 med replace, 6 med mod
+    /// 0 none, 1 nh address, 2 nh self, 3 nh peer-address, 4 nh unchanged, 5 med replace, 6 med mod,
+    /// 7 community add, 8 community replace, 9 community remove (an existing one and LLGR_STALE),
+    /// 10 community replace with nothing, 11 ext-community add, 12 large-community add,
+    /// 13 as-prepend x2, 14 local-pref set, 15 community remove (the plain ones)
     policy: u8,
     addpath: bool,
     decoy: bool,
@@ -574,6 +577,46 @@ fn build_policies() -> Policies {
             }),
             ..Default::default()
         })));
+        let comm = |t: table::CommunityActionType, c: Vec<u32>| {
+            Some(build_assignment(table::Actions {
+                community: Some(table::CommunityAction {
+                    action_type: t,
+                    communities: c,
+                }),
+                ..Default::default()
+            }))
+        };
+        v.push(comm(table::CommunityActionType::Add, vec![POL_C1])); // 7
+        v.push(comm(table::CommunityActionType::Replace, vec![POL_C1, POL_C2])); // 8
+        v.push(comm(table::CommunityActionType::Remove, vec![COMM_A, LLGR_STALE])); // 9
+        v.push(comm(table::CommunityActionType::Replace, vec![])); // 10
+        v.push(Some(build_assignment(table::Actions {
+            ext_community: Some(table::ExtCommunityAction {
+                action_type: table::CommunityActionType::Add,
+                communities: vec![POL_EXT],
+            }),
+            ..Default::default()
+        }))); // 11
+        v.push(Some(build_assignment(table::Actions {
+            large_community: Some(table::LargeCommunityAction {
+                action_type: table::CommunityActionType::Add,
+                communities: vec![POL_LARGE],
+            }),
+            ..Default::default()
+        }))); // 12
+        v.push(Some(build_assignment(table::Actions {
+            as_prepend: Some(table::AsPrependAction {
+                asn: POL_PREPEND_AS,
+                repeat: 2,
+                use_left_most: false,
+            }),
+            ..Default::default()
+        }))); // 13
+        v.push(Some(build_assignment(table::Actions {
+            local_pref: Some(table::LocalPrefAction { value: POL_LOCAL_PREF }),
+            ..Default::default()
+        }))); // 14
+        v.push(comm(table::CommunityActionType::Remove, vec![COMM_A, COMM_B])); // 15
         v
     };
     Policies {
@@ -582,8 +625,24 @@ fn build_policies() -> Policies {
     }
 }
 
+const POL_C1: u32 = (64700 << 16) | 11;
+const POL_C2: u32 = (64700 << 16) | 12;
+const POL_EXT: [u8; 8] = [0x00, 0x02, 0xfc, 0xbc, 0, 0, 0, 0x63];
+const POL_LARGE: (u32, u32, u32) = (64700, 1, 2);
+const POL_PREPEND_AS: u32 = 64999;
+const POL_LOCAL_PREF: u32 = 333;
+
 fn policy_name(p: u8) -> &'static str {
     match p {
+        7 => "community-add",
+        8 => "community-replace",
+        9 => "community-remove-incl-llgr-stale",
+        10 => "community-replace-with-nothing",
+        11 => "ext-community-add",
+        12 => "large-community-add",
+        13 => "as-prepend",
+        14 => "local-pref-set",
+        15 => "community-remove",
         0 => "none",
         1 => "nh-address",
         2 => "nh-self",
@@ -681,6 +740,12 @@ struct ExpSend {
     nh_by_policy: bool,
     /// true when `nexthop` is "next hop self" (full form, incl. the link-local half)
     nh_self: bool,
+    /// the route arrived already carrying LLGR_STALE from a source that is not itself
+    /// LLGR-stale and the export policy removed / replaced communities: whether the tag
+    /// must survive is left open by the statement -- compared ignoring LLGR_STALE
+    llgr_tag_open: bool,
+    ext_community: Exp<Vec<u8>>,
+    large_community: Exp<Vec<u8>>,
     reflected: bool,
     unjudged: Vec<&'static str>,
 }
@@ -731,7 +796,18 @@ fn expected_export(cell: &Cell, s: &Spec, env: &Env) -> Expected {
         return Expected::Suppress(clause);
     }
     let in_segs = path_segments(s.path);
-    let in_items: Vec<Item> = in_segs.as_deref().map(items_of).unwrap_or_default();
+    let mut in_items: Vec<Item> = in_segs.as_deref().map(items_of).unwrap_or_default();
+    if s.policy == 13 {
+        // export-policy as-prepend: the policy's AS twice in front of the received path
+        // (in a confederation segment towards confed-eBGP peers); the per-role rewrite
+        // then happens on top of that
+        let kind = if cell.dst == PeerRole::ConfedEbgp { SEG_CSEQ } else { SEG_SEQ };
+        let mut v = vec![Item::Hop(kind, POL_PREPEND_AS), Item::Hop(kind, POL_PREPEND_AS)];
+        v.extend(in_items);
+        in_items = v;
+    }
+    // LOCAL_PREF as the export policy leaves it
+    let lp_after_policy = if s.policy == 14 { Some(POL_LOCAL_PREF) } else { s.lp };
     let mut unjudged: Vec<&'static str> = Vec::new();
 
     // attributes the statement does not mention travel unchanged
@@ -739,10 +815,32 @@ fn expected_export(cell: &Cell, s: &Spec, env: &Env) -> Expected {
         Some(o) => Exp::Is(o as u32),
         None => Exp::Absent,
     };
+    // communities: what the export policy makes of the received ones, and on top of that
+    // LLGR_STALE whenever the source is LLGR-stale ("LLGR-stale routes carry LLGR_STALE",
+    // whatever the policy did to the other communities)
     let mut comm: BTreeSet<u32> = spec_communities(s).into_iter().collect();
-    if s.llgr && cell.src.is_peer() {
+    let received_tag = comm.contains(&LLGR_STALE);
+    match s.policy {
+        7 => {
+            comm.insert(POL_C1);
+        }
+        8 => comm = [POL_C1, POL_C2].into_iter().collect(),
+        9 => {
+            comm.remove(&COMM_A);
+            comm.remove(&LLGR_STALE);
+        }
+        10 => comm.clear(),
+        15 => {
+            comm.remove(&COMM_A);
+            comm.remove(&COMM_B);
+        }
+        _ => {}
+    }
+    let source_stale = s.llgr && cell.src.is_peer();
+    if source_stale {
         comm.insert(LLGR_STALE);
     }
+    let llgr_tag_open = received_tag && !source_stale && matches!(s.policy, 8 | 9 | 10);
     let communities = if comm.is_empty() {
         Exp::Absent
     } else {
@@ -790,6 +888,17 @@ fn expected_export(cell: &Cell, s: &Spec, env: &Env) -> Expected {
         nexthop: ExpNh::Any,
         nh_by_policy: policy_nh.is_some(),
         nh_self: false,
+        llgr_tag_open,
+        ext_community: if s.policy == 11 { Exp::Is(POL_EXT.to_vec()) } else { Exp::Absent },
+        large_community: if s.policy == 12 {
+            let mut b = Vec::new();
+            b.extend_from_slice(&POL_LARGE.0.to_be_bytes());
+            b.extend_from_slice(&POL_LARGE.1.to_be_bytes());
+            b.extend_from_slice(&POL_LARGE.2.to_be_bytes());
+            Exp::Is(b)
+        } else {
+            Exp::Absent
+        },
         reflected: false,
         unjudged: Vec::new(),
     };
@@ -842,7 +951,7 @@ fn expected_export(cell: &Cell, s: &Spec, env: &Env) -> Expected {
         }
         PeerRole::Ibgp | PeerRole::IbgpRrClient => {
             e.path = Exp::Is(in_items);
-            e.local_pref = match s.lp {
+            e.local_pref = match lp_after_policy {
                 Some(v) => Exp::Is(v),
                 None => Exp::Present,
             };
@@ -896,7 +1005,7 @@ fn expected_export(cell: &Cell, s: &Spec, env: &Env) -> Expected {
             let mut items = vec![Item::Hop(SEG_CSEQ, env.ctx_local_asn)];
             items.extend(in_items.iter().cloned());
             e.path = Exp::Is(items);
-            e.local_pref = match s.lp {
+            e.local_pref = match lp_after_policy {
                 Some(v) => Exp::Is(v),
                 None => Exp::Any,
             };
@@ -963,6 +1072,8 @@ fn code_name(code: u8) -> String {
         A::ORIGINATOR_ID => "ORIGINATOR_ID".into(),
         A::CLUSTER_LIST => "CLUSTER_LIST".into(),
         A::AIGP => "AIGP".into(),
+        A::EXTENDED_COMMUNITY => "EXTENDED_COMMUNITY".into(),
+        A::LARGE_COMMUNITY => "LARGE_COMMUNITY".into(),
         OPQ_T_CODE => "OPAQUE_TRANSITIVE".into(),
         OPQ_NT_CODE => "OPAQUE_NON_TRANSITIVE".into(),
         c => format!("code{}", c),
@@ -1267,7 +1378,23 @@ fn judge(
                 "route of an LLGR-stale source sent without LLGR_STALE".into(),
             ));
         } else {
-            match (&e.communities, got) {
+            // open question (counted by the caller): a received LLGR_STALE tag removed by
+            // the export policy -- compare the other communities only
+            let strip = |mut g: BTreeSet<u32>| {
+                if e.llgr_tag_open {
+                    g.remove(&LLGR_STALE);
+                }
+                g
+            };
+            let got = got.map(strip).filter(|g| !(e.llgr_tag_open && g.is_empty()));
+            let want = match &e.communities {
+                Exp::Is(v) => {
+                    let v = strip(v.clone());
+                    if v.is_empty() { Exp::Absent } else { Exp::Is(v) }
+                }
+                o => o.clone(),
+            };
+            match (&want, got) {
                 (Exp::Any, _) | (Exp::Absent, None) | (Exp::Present, Some(_)) => {}
                 (Exp::Absent, Some(g)) => {
                     if !g.is_empty() {
@@ -1331,6 +1458,31 @@ fn judge(
             ));
         }
     }
+    // attributes added by export-policy actions survive the per-role rewrite
+    for (exp, code) in [
+        (&e.ext_community, A::EXTENDED_COMMUNITY),
+        (&e.large_community, A::LARGE_COMMUNITY),
+    ] {
+        let got = find1(attrs, code).map(|a| a.binary().cloned().unwrap_or_default());
+        match (exp, got) {
+            (Exp::Is(v), Some(g)) if &g == v => {}
+            (Exp::Is(_), g) => out.push((
+                "other-attrs",
+                format!("policy-{}-lost", code_name(code)),
+                format!(
+                    "{} set by the export policy is {} in the advertisement",
+                    code_name(code),
+                    if g.is_some() { "different" } else { "missing" }
+                ),
+            )),
+            (Exp::Absent, Some(_)) => out.push((
+                "other-attrs",
+                format!("gained-{}", code_name(code)),
+                format!("unexpected attribute {} in the advertisement", code_name(code)),
+            )),
+            _ => {}
+        }
+    }
     // nothing else may appear
     for c in seen.keys() {
         let known = matches!(
@@ -1343,6 +1495,8 @@ fn judge(
                 | A::ORIGINATOR_ID
                 | A::CLUSTER_LIST
                 | A::AIGP
+                | A::EXTENDED_COMMUNITY
+                | A::LARGE_COMMUNITY
                 | OPQ_T_CODE
                 | OPQ_NT_CODE
         );
@@ -1722,6 +1876,29 @@ fn run_case_with(
             }
             if s.llgr && cell.src.is_peer() {
                 ctx.rep.count("clause:llgr");
+                if matches!(s.policy, 7..=10 | 15) {
+                    ctx.rep.count("clause:llgr-under-community-policy");
+                }
+                if matches!(s.policy, 8 | 9 | 10) {
+                    ctx.rep.count("clause:llgr-under-community-replace-or-remove");
+                }
+                if s.comm == 2 {
+                    ctx.rep.count("clause:llgr-source-stale-and-tag-received");
+                }
+            }
+            if s.policy >= 7 {
+                ctx.rep.count(&format!("policy:{}", policy_name(s.policy)));
+                ctx.rep.count("clause:rewrite-on-top-of-attribute-policy");
+            }
+            if e.llgr_tag_open {
+                let kept = find1(a, packet::Attribute::COMMUNITY)
+                    .and_then(|x| x.binary())
+                    .is_some_and(|b| bytes_to_u32s(b).contains(&LLGR_STALE));
+                ctx.rep.count(if kept {
+                    "open:received-llgr-stale-tag-kept-despite-policy"
+                } else {
+                    "open:received-llgr-stale-tag-removed-by-export-policy"
+                });
             }
             if s.opq_t != 0 || s.opq_nt != 0 {
                 ctx.rep.count("clause:opaque");
@@ -1839,12 +2016,25 @@ fn covering_specs() -> Vec<Spec> {
                 }
             }
         }
-        for pol in 1..N_POLICIES {
+        for pol in 1..7u8 {
             for nh in 0..N_NH_KINDS {
                 let mut s = base.clone();
                 s.policy = pol;
                 s.nh = nh;
                 variants.push(s);
+            }
+        }
+        // attribute-rewriting export policies x LLGR-stale source x received communities
+        // (none / plain / already carrying LLGR_STALE)
+        for pol in 7..N_POLICIES {
+            for llgr in [false, true] {
+                for comm in 0..3u8 {
+                    let mut s = base.clone();
+                    s.policy = pol;
+                    s.llgr = llgr;
+                    s.comm = comm;
+                    variants.push(s);
+                }
             }
         }
         let toggles: Vec<Box<dyn Fn(&mut Spec)>> = vec![
@@ -1969,7 +2159,11 @@ fn run_matrix(ctx: &mut Ctx, rng: &mut Rng, shard: u64, nshards: u64, random_per
             break;
         }
         ctx.rep.count("matrix:cells-run");
-        for s in &covering {
+        for (k, s) in covering.iter().enumerate() {
+            // echo cells expect Suppress whatever the vector: a quarter of the set is plenty
+            if cell.echo && k % 4 != (i % 4) {
+                continue;
+            }
             run_case(ctx, cell, s);
         }
         for _ in 0..random_per_cell {
@@ -2030,9 +2224,16 @@ fn run_llgr_history(ctx: &mut Ctx) {
     for (srck, dst) in combos {
         for addpath in [false, true] {
             // second path: 0 = none, 1 = a worse path from another peer, 2 = a better one
-            for other in 0..3u8 {
+            // x export policy of the receiver: none / community replace / remove / replace-with-nothing
+            for combo in 0..12u8 {
+                let other = combo % 3;
+                let hpol = [0u8, 8, 9, 10][(combo / 3) as usize];
+                let hpolicy = ctx.pol.v4[hpol as usize].clone();
                 ctx.rep.eval();
                 ctx.rep.count("llgr-history:cases");
+                if hpol != 0 {
+                    ctx.rep.count("llgr-history:cases-with-community-policy");
+                }
                 let recv: IpAddr = "10.0.0.3".parse().unwrap();
                 let local: IpAddr = "10.0.0.1".parse().unwrap();
                 let src_addr: IpAddr = "10.0.0.2".parse().unwrap();
@@ -2103,6 +2304,13 @@ fn run_llgr_history(ctx: &mut Ctx) {
                             packet::Attribute::new_with_value(packet::Attribute::LOCAL_PREF, 100)
                                 .unwrap(),
                         );
+                        v.push(
+                            packet::Attribute::new_with_bin(
+                                packet::Attribute::COMMUNITY,
+                                u32s_to_bytes(&[COMM_A, COMM_B]),
+                            )
+                            .unwrap(),
+                        );
                         Arc::new(v)
                     };
                     let first_as = if srck.is_ibgp() {
@@ -2131,7 +2339,7 @@ fn run_llgr_history(ctx: &mut Ctx) {
                                 em,
                                 &mut rec,
                                 &export_ctx,
-                                None,
+                                hpolicy.as_deref(),
                                 cluster_id,
                                 None,
                                 None,
@@ -2214,7 +2422,8 @@ fn run_llgr_history(ctx: &mut Ctx) {
                             role_name(dst)
                         ));
                         let sig = format!(
-                            "C09/llgr/peer-to-any/stale-transition-{}",
+                            "C09/llgr/peer-to-any/stale-transition-{}{}",
+                            if hpol != 0 { "under-community-policy-" } else { "" },
                             if addpath { "addpath" } else { "plain" }
                         );
                         let what = format!(
@@ -2231,6 +2440,10 @@ fn run_llgr_history(ctx: &mut Ctx) {
                                 (
                                     "branch",
                                     Json::s(if addpath { "add-path" } else { "non-add-path" }),
+                                ),
+                                (
+                                    "export_policy",
+                                    Json::s(policy_name(hpol)),
                                 ),
                                 (
                                     "other_path",
@@ -2250,7 +2463,7 @@ fn run_llgr_history(ctx: &mut Ctx) {
                 if held_stale {
                     ctx.rep.count("llgr-history:receiver-holds-stale-route");
                     ctx.rep.nontrivial(fnv64(
-                        format!("llgr|{:?}|{:?}|{}|{}", srck, dst, addpath, other).as_bytes(),
+                        format!("llgr|{:?}|{:?}|{}|{}|{}", srck, dst, addpath, other, hpol).as_bytes(),
                     ));
                 }
             }
@@ -2993,7 +3206,7 @@ fn gen_batch(rng: &mut Rng) -> (Batch, Vec<(Spec, Arc<Vec<packet::Attribute>>)>)
         confed: rng.chance(1, 4),
         addpath: rng.bool(),
         // none (mostly), nh-unchanged (keeps explicit next hops towards eBGP), MED actions
-        policy: *rng.pick(&[0u8, 0, 0, 4, 4, 5, 6]),
+        policy: *rng.pick(&[0u8, 0, 0, 4, 4, 5, 6, 7, 8, 8, 9, 9, 10, 10, 11, 12, 13, 14, 15]),
         ctx_asn_confed: rng.bool(),
         flavour: *rng.pick(&[0u8, 0, 1, 1, 1, 2, 2]),
         link_local: rng.bool(),
